@@ -21,7 +21,8 @@ FLOAT_INPUTS = ("x", "x2")
 
 @st.composite
 def cases(draw, tier):
-    return dict(prog=draw(dsl.unit_programs()), seed=draw(st.integers(0, 10**6)), train=draw(st.booleans()))
+    return dict(prog=draw(dsl.unit_programs()), seed=draw(st.integers(0, 10**6)), train=draw(st.booleans()),
+                prior_replace=draw(st.integers(0, 7)) == 0)
 
 
 def prep(inputs):
@@ -127,6 +128,14 @@ def run(c) -> CaseResult:
     ftag = "+".join(feats) or "plain"
     st_ = dsl.stats(prog)
     res.labels += [f"residuals={st_['n_residual']}"] + feats
+    if c.get("prior_replace"):
+        # an earlier, unrelated unit_scale(..., replace=...) call in the same process must not leak into this one
+        res.labels.append("after-unrelated-replace-call")
+        try:
+            pm = unit_scale(ReplaceModel(3, "builtin-overridden"), replace={F.gelu: my_gelu})
+            pm(torch.randn(2, 3))
+        except Exception:  # noqa: BLE001  (its own correctness is the replace part's business)
+            pass
     m = dsl.build_module(prog, c["seed"])
     m.train(c["train"])
     inputs = dsl.make_inputs(prog, c["seed"])
